@@ -337,6 +337,8 @@ pub struct RichSim {
     n_unindexed_before_indexed: u64,
     n_queries_nonempty: u64,
     n_gc_shared_type: u64,
+    /// an `x` op of the key-value stream in progress: only its writer half runs here, under the op's own line
+    x_line: Option<String>,
 }
 
 #[derive(Clone)]
@@ -361,7 +363,7 @@ impl RichSim {
     pub fn new(root: PathBuf) -> RichSim {
         let rt = tokio::runtime::Builder::new_multi_thread().worker_threads(2).enable_all().build().expect("tokio runtime");
         let kv = Sim::new(root.join("kv"));
-        RichSim { rt, root, n_dirs: 0, dir: None, idx: None, handle: None, reader: None, kv, kv_live: false, chain: vec![], bf: 0, cf: 0, snapshots: vec![], n_reorg: 0, n_unindexed_before_indexed: 0, n_queries_nonempty: 0, n_gc_shared_type: 0 }
+        RichSim { rt, root, n_dirs: 0, dir: None, idx: None, handle: None, reader: None, kv, kv_live: false, chain: vec![], bf: 0, cf: 0, snapshots: vec![], n_reorg: 0, n_unindexed_before_indexed: 0, n_queries_nonempty: 0, n_gc_shared_type: 0, x_line: None }
     }
     pub fn close(&mut self) {
         if let Some(r) = self.reader.take() {
@@ -723,6 +725,23 @@ impl RichSim {
     pub fn exec(&mut self, out: &mut Out, line: &str) {
         let t: Vec<&str> = line.split_whitespace().collect();
         match t[0] {
+            // the tx-pool overlay of the rich-indexer is not driven (no hook): overlay ops are skipped, of an
+            // interleaved op (`x <query> && <writer>`, key-value stream) only the writer half runs
+            "pnew" | "prej" | "pdead" => {
+                out.count("overlay-op-skipped");
+                match self.x_line.take() {
+                    Some(xl) => out.op(&xl, "x skipped && pool skipped"),
+                    None => out.op(line, "pool skipped"),
+                }
+            }
+            "x" => {
+                let pos = t.iter().position(|x| *x == "&&").expect("malformed: x without &&");
+                assert!(pos + 1 < t.len() && matches!(t[pos + 1], "append" | "rollback" | "pnew" | "prej"), "malformed: x needs a writer op");
+                self.x_line = Some(line.to_string());
+                let w = t[pos + 1..].join(" ");
+                self.exec(out, &w);
+                assert!(self.x_line.is_none(), "x: the writer op did not run");
+            }
             "config" => {
                 // optional: b<n> c<n> = custom block / cell filter of the case
                 let pick = |p: char| -> u64 { t.iter().skip(3).find(|x| x.starts_with(p)).map(|x| x[1..].parse().expect("filter id")).unwrap_or(0) };
@@ -771,7 +790,10 @@ impl RichSim {
                 let ans = self.tip_string();
                 self.check_tip(out, &ans);
                 out.count("append");
-                out.op(line, &ans);
+                match self.x_line.take() {
+                    Some(xl) => out.op(&xl, &format!("x skipped && {}", ans)),
+                    None => out.op(line, &ans),
+                }
                 self.check_rows(out, "after-append");
             }
             "wf" => {
@@ -835,7 +857,10 @@ impl RichSim {
                     }
                 }
                 out.count("rollback");
-                out.op(line, &ans);
+                match self.x_line.take() {
+                    Some(xl) => out.op(&xl, &format!("x skipped && {}", ans)),
+                    None => out.op(line, &ans),
+                }
                 self.check_rows(out, "after-rollback");
             }
             "prune" | "tip" => {
